@@ -92,6 +92,7 @@ NETS = {
         _sc([], [[I(1), I(2), I(3)]]),
         _sc([], [[I(1), I(2), I(3)], [I(3), I(4)]]),
         _sc([], [[S("a"), S("b"), S("c")], [S("c"), I(4)]]),
+        _sc([], [[I(1), I(2), I(3), I(4)]]),
     ],
 }
 
@@ -108,6 +109,10 @@ VALS = [
     D([S("k"), L(I(1), I(2))], [I(0), L(I(8), I(9))]),
     D([I(1), D([S("c"), I(1)])], [I(77), D([S("c"), I(2)])]),
     D([I(1), I(4)]),
+    L(L(I(1), I(2), I(3)), L(I(2), I(3), I(4))),
+    D([I(20), L(I(1), I(2), I(3))], [I(21), L(I(2), I(3), I(4))]),
+    D([I(20), L(I(5), I(6), I(7))], [I(21), L(I(6), I(7), I(8))]),
+    D([I(20), L(I(1), I(2), I(3))], [I(21), L(I(3), I(2), I(4))]),
     L(T(I(8), D([S("c"), I(1)])), I(9)),
     L(L(L(I(1), I(2)), L(I(3))), L(L(I(3)), L(I(4)))),
     T(L(I(1), I(2)), L(I(3))),
@@ -115,6 +120,12 @@ VALS = [
     S("in"), S("out"), S("first"), S("tuple"), S("new"), S("union"), S("intersection"), S("weight"),
 ]
 KW = [D(), D([S("color"), S("red")])]
+
+
+NODE_PARAMS = {"n", "node", "n_id1", "n_id2", "nid1", "nid2", "source"}
+EDGE_PARAMS = {"id", "idx", "e", "edge", "e_id1", "e_id2"}
+NODES_PARAMS = {"nodes", "nbunch"}
+EDGES_PARAMS = {"ebunch", "ids", "edges"}
 
 
 def cases_for(spec, variant=None, limit=400, seed=0, extra_vals=()):
@@ -149,12 +160,23 @@ def cases_for(spec, variant=None, limit=400, seed=0, extra_vals=()):
         combos = list(itertools.product(*doms))
     else:
         combos = [tuple(rng.choice(d) for d in doms) for _ in range(limit)]
+        # stratify the first free-valued parameter: every pool value is tried at least once when the limit allows,
+        # so that the hand-picked corner inputs do not depend on the luck of the draw
+        free = [i for i, (n, ty) in enumerate(names) if ty == "val"]
+        if free:
+            pool = list(doms[free[0]])
+            rng.shuffle(pool)
+            combos = [tuple(pool[j % len(pool)] if i == free[0] else v for i, v in enumerate(c)) for j, c in enumerate(combos)]
     # state-dependent arguments: ids and id lists drawn from the chosen network make preconditions such as
     # "bunch within the network" / "n is a node" hold far more often than independent draws
     net_idx = [i for i, (n, ty) in enumerate(names) if ty.startswith("net:")]
     if total > limit and net_idx:
         adapted = []
-        for combo in combos:
+        nstrat = len(doms[free[0]]) if free else 0
+        for j, combo in enumerate(combos):
+            if j < nstrat and j % 2 == 0:
+                adapted.append(combo)  # every other stratified case is kept as drawn
+                continue
             st = combo[net_idx[0]]
             nids = [r[0] for r in st["node"]]
             eids = [r[0] for r in st["edge"]]
@@ -166,8 +188,16 @@ def cases_for(spec, variant=None, limit=400, seed=0, extra_vals=()):
                 if name == "bunch":
                     pool = eids if "edgestats" in spec.qual else nids
                     combo[i] = L(*rng.sample(pool, rng.randint(0, len(pool)))) if r < 0.9 else combo[i]
-                elif name in ("order", "weight", "degree"):
+                elif name in ("order", "weight", "degree", "max_order"):
                     combo[i] = NONE if r < 0.6 else (I(rng.randint(0, 2)) if r < 0.9 else combo[i])
+                elif name in NODE_PARAMS and nids and r < 0.7:
+                    combo[i] = rng.choice(nids)
+                elif name in EDGE_PARAMS and eids and r < 0.7:
+                    combo[i] = rng.choice(eids)
+                elif name in NODES_PARAMS and nids and r < 0.6:
+                    combo[i] = L(*rng.sample(nids, rng.randint(0, len(nids))))
+                elif name in EDGES_PARAMS and eids and r < 0.6:
+                    combo[i] = L(*rng.sample(eids, rng.randint(0, len(eids))))
                 elif r < 0.2 and nids:
                     combo[i] = rng.choice(nids)
                 elif r < 0.35 and eids:
